@@ -130,13 +130,17 @@ theorem extra_discharges_irrelevant (k : B) (m : Mac B) (dms extra : List (Mac B
     rw [walk_congr _ _ (byTicket (extra ++ dms)) (byTicket dms) _ _ _ (fun l v t hm => (hb l v t hm).2)]
 
 /-- [lawful] the third party recovers from a ticket exactly the conditions its author attached, and
-the discharge it prepares is rooted at the secret the caveat embeds, keyed by the ticket -/
-theorem ticket_roundtrip [LawfulCrypto B] (ka : B) (loc : Bytes) (cs : List (Cav B)) (rn tn vn rnd : B) (p : Bool) :
+the discharge it prepares is rooted at the secret the caveat embeds, keyed by the ticket — for a
+third-party key that is an AEAD key, an AEAD nonce, and a ticket body within the codec's domain
+(`okKey`, `okNonce`, `okTicketBody` of the instance: `True` symbolically; 32 bytes, 12 bytes and
+well-formed caveats concretely, see Props/Concrete.lean) -/
+theorem ticket_roundtrip [LawfulCrypto B] (ka : B) (loc : Bytes) (cs : List (Cav B)) (rn tn vn rnd : B) (p : Bool)
+    (hka : LawfulCrypto.okKey ka) (htn : LawfulCrypto.okNonce tn) (hb : LawfulCrypto.okTicketBody rn cs) :
     ∃ ticket, newCaveat3P ka loc cs rn tn vn = .new3p loc ticket rn vn ∧
       dischargeTicket ka loc ticket rnd p = .ok (cs, mint rn ticket loc rnd p) := by
   refine ⟨sealTicket ka tn rn cs, rfl, ?_⟩
   unfold dischargeTicket
-  rw [LawfulCrypto.openTicket_sealTicket]
+  rw [LawfulCrypto.openTicket_sealTicket ka tn rn cs hka htn hb]
 
 /-- a ticket the key does not open, or that opens to something else, yields an error and no discharge -/
 theorem bad_ticket_rejected (ka : B) (loc : Bytes) (ticket rnd : B) (p : Bool) :
